@@ -18,6 +18,7 @@ from copsim.core import DEFAULT_SEED, derive_seed, mkrng, vkey
 ROOT = os.path.dirname(os.path.dirname(os.path.abspath(__file__)))
 EVIDENCE_DIR = os.path.join(ROOT, 'evidence')
 REPLAY_DIR = os.path.join(ROOT, 'replays')
+REGRESS_DIR = os.path.join(ROOT, 'regress')
 PY = sys.executable
 RUN_TIMEOUT = 240          # seconds, per run, enforced inside the worker
 
@@ -267,6 +268,25 @@ def run_check(prop, tier, seed=None, workers=None, runs=None, wall=None):
     print('VERIF_SEED=%d property=%s tier=%s runs<=%d wall<=%ds workers=%d'
           % (seed, prop, tier, cfg['runs'], cfg['wall'], workers), flush=True)
 
+    # regression stage: the minimised replays of every finding that was repaired ("fixed:"
+    # lines of known_findings.txt) are re-executed first; a fixed entry suppresses nothing
+    regress_hits = []
+    regress_files = sorted(f for f in (os.listdir(REGRESS_DIR) if os.path.isdir(REGRESS_DIR)
+                                       else []) if f.startswith(prop + '-'))
+    _prepare_worker()
+    for fn_ in regress_files:
+        path = os.path.join(REGRESS_DIR, fn_)
+        with open(path) as f:
+            body = json.load(f)
+        res = execute_run(mod, body['run'])
+        want = (body['violation']['oracle'], body['violation']['subject'])
+        hits = [v for v in res['violations'] if vkey(v) == want
+                and findings.classify(prop, v, entries) is None]
+        if hits:
+            regress_hits.append((path, hits[0]))
+    print('regression replays: %d re-executed, %d reproduce' % (len(regress_files),
+                                                                len(regress_hits)), flush=True)
+
     n_fixed = len(_fixed_runs(mod, tier))
     total = cfg['runs'] + n_fixed
     batch = cfg.get('batch', 4)
@@ -391,7 +411,7 @@ def run_check(prop, tier, seed=None, workers=None, runs=None, wall=None):
 
     wall_s = time.time() - t0
     # ------------------------------------------------------------------ evidence
-    n_viol_classes = len([g for g in groups if g[2] is None])
+    n_viol_classes = len([g for g in groups if g[2] is None]) + len(regress_hits)
     coverage = {
         'evaluations': evaluations,
         'distinct_nontrivial': len(shapes),
@@ -414,6 +434,8 @@ def run_check(prop, tier, seed=None, workers=None, runs=None, wall=None):
         'determinism_probe': {'reexecuted': len(recheck[:60]), 'digest_mismatches': len(nondet)},
         'budget_truncated_by_wall_clock': truncated,
         'known_findings_emitted': known_lines,
+        'regression_replays': {'reexecuted': len(regress_files),
+                               'reproduced': len(regress_hits)},
         'violation_classes': n_viol_classes,
     }
     if hasattr(mod, 'extra_evidence'):
@@ -428,9 +450,12 @@ def run_check(prop, tier, seed=None, workers=None, runs=None, wall=None):
         'wall_s': round(wall_s, 2),
         'violations': n_viol_classes,
     }
-    os.makedirs(EVIDENCE_DIR, exist_ok=True)
-    with open(os.path.join(EVIDENCE_DIR, prop + '.json'), 'w') as f:
-        json.dump(evidence, f, indent=1, sort_keys=True, default=str)
+    if os.environ.get('COPULAS_REPO'):
+        print('(COPULAS_REPO is set: evidence file not rewritten - evidence is about /repo only)')
+    else:
+        os.makedirs(EVIDENCE_DIR, exist_ok=True)
+        with open(os.path.join(EVIDENCE_DIR, prop + '.json'), 'w') as f:
+            json.dump(evidence, f, indent=1, sort_keys=True, default=str)
 
     # ------------------------------------------------------------------ report
     print('runs=%d (fixed %d) distinct_nontrivial=%d states=%d wall=%.1fs runs/h=%d'
@@ -455,6 +480,12 @@ def run_check(prop, tier, seed=None, workers=None, runs=None, wall=None):
         print('HARNESS-ERROR: replay %s did not reproduce in a fresh process '
               '(reproduced=%s digest_identical=%s)\n%s' % p)
         return 2
+    for path, v in regress_hits:
+        print('  regression: oracle=%s subject=%s\n  detail=%s' % (v['oracle'], v['subject'],
+                                                                   v['detail']))
+        print('VIOLATION property=%s replay=%s' % (prop, path))
+    if regress_hits and not violation_lines:
+        return 1
     if violation_lines:
         for line, v, used in violation_lines:
             print('  oracle=%s subject=%s cond=%s\n  detail=%s (shrunk with %d executions)'
